@@ -90,6 +90,12 @@ def to_term(expr: ast.AST, atom: Callable[[ast.AST], Optional[object]]) -> Term:
         if name in ("matmul", "bmm", "solve") and len(expr.args) == 2 and ch and ch.split(".")[0] == "torch":
             if atom(_strip_shape(expr.args[0])) == "M":
                 return t_apply("M" if name != "solve" else "S", to_term(expr.args[1], atom))
+            a0 = _strip_shape(expr.args[0])
+            if isinstance(a0, ast.Call) and isinstance(a0.func, ast.Attribute) and a0.func.attr in ("transpose", "permute", "t") and atom(_strip_shape(a0.func.value)) == "M" and name != "solve":
+                # the transposed matrix: the inverse only of an orthogonal matrix — an operator of its own (no cancellation with M)
+                return t_apply("T", to_term(expr.args[1], atom))
+            if isinstance(a0, ast.Call) and attr_chain(a0.func) in ("torch.linalg.inv", "torch.inverse", "torch.linalg.pinv") and a0.args and atom(_strip_shape(a0.args[0])) == "M" and name != "solve":
+                return t_apply("S", to_term(expr.args[1], atom))
         if name in ("add", "sub", "subtract") and len(expr.args) == 2 and ch and ch.split(".")[0] == "torch":
             return t_add(to_term(expr.args[0], atom), to_term(expr.args[1], atom), 1 if name == "add" else -1)
     if isinstance(expr, ast.Subscript) and isinstance(expr.slice, ast.Tuple) and expr.slice.elts and isinstance(expr.slice.elts[-1], ast.Constant) and expr.slice.elts[-1].value == 0 \
